@@ -229,4 +229,7 @@ once, after admission. -/
 theorem C19_layer_is_translated :
     Gen.rateRefusalStatus = Gen.StatusCode.TooManyRequests ∧ Gen.towerShapeChecked = true := ⟨rfl, rfl⟩
 
+/-- **"Per peer" means per 32-byte identity** (derived equality and hash of `PeerId`, checked on this run). -/
+theorem C19_identity_is_pinned : Gen.peerIdShapeChecked = true := rfl
+
 end Anemo
